@@ -608,8 +608,13 @@ class Ruby(ContentElement):
     if ts not in [[Rb, Rt], [Rb, Rp, Rt, Rp], [Rbc, Rtc], [Rbc, Rtc, Rtc]]:
       raise ValueError("Children of ruby do not conform to requirements")
 
-    for child in children:
-      super().push_child(child)
+    try:
+      for child in children:
+        super().push_child(child)
+    except Exception:
+      # a child could not be added: leave the element without children, as it was
+      self.remove_children()
+      raise
 
   def remove_children(self):
     '''Remove all children of the element.'''
@@ -758,8 +763,16 @@ class Rtc(ContentElement):
     if not all(isinstance(x, Rt) for x in cs):
       raise ValueError("Children of rtc do not conform to requirements")
 
-    for child in children:
-      super().push_child(child)
+    count = len(self)
+
+    try:
+      for child in children:
+        super().push_child(child)
+    except Exception:
+      # a child could not be added: remove the children that were
+      for child in list(self)[count:]:
+        super().remove_child(child)
+      raise
 
   def remove_children(self):
 
